@@ -425,7 +425,10 @@ class Taylor(object):
         return m1, m2
 
     def _check_convergence(self, i, z0, r, m, bn):
-        if self._direction_changes > 1 or self._degenerate:
+        # After the first direction change the growth factor is square rooted in every
+        # iteration: once it is ~1 the radius no longer moves and no further change can come.
+        stalled = self._direction_changes > 0 and self._step_ratio < 1.01
+        if self._direction_changes > 1 or self._degenerate or stalled:
             self._num_changes += 1
             if self._num_changes >= 1 + self.num_extrap:
                 return True, r
